@@ -48,7 +48,7 @@ TIMING = gen_ttml.profile(p_time=0.38, p_seq=0.3, attrs=(0, 1), n_styles=(1, 3),
                           regions=(0, 2), nested=(0, 1), sets=(0, 0, 0, 1), max_nodes=26, avoid_r1=False,
                           props=["Color", "BackgroundColor", "Display", "Opacity", "FontSize", "TextAlign", "Visibility", "Extent", "Origin",
                                  "FontStyle", "TextDecoration"])
-STYLING = gen_ttml.profile(p_time=0.12, p_seq=0.15, attrs=(0, 3), n_styles=(3, 7), style_attrs=(1, 3), style_refs=(0, 2), elem_refs=(0, 3),
+STYLING = gen_ttml.profile(p_time=0.12, p_seq=0.15, attrs=(0, 3), n_styles=(3, 7), style_attrs=(1, 3), style_refs=(0, 3), elem_refs=(0, 3),
                            initials=(0, 2), regions=(1, 3), nested=(0, 2), sets=(0, 0, 1, 2), max_nodes=16, fanout=2, ruby=True,
                            p_missing_ref=0.08, avoid_r1=False)
 R1 = gen_ttml.profile(p_time=0.45, p_seq=0.15, attrs=(0, 0), n_styles=(0, 0), elem_refs=(0, 0), initials=(0, 0), regions=(0, 1),
@@ -652,12 +652,12 @@ def finish(ctx):
 PARTS = {
   "timing": Part("timing", check, strategy=cases(TIMING), n=(480, 48000), shrinker=simplifications,
                  required_labels=("feat:offset-container", "feat:seq>=2", "feat:dur", "feat:dur+end", "feat:implicit-end", "feat:syn:f",
-                                  "feat:syn:t", "feat:syn:clockf", "feat:syn:clock", "feat:syn:ms", "feat:syn:h", "feat:syn:m",
+                                  "feat:syn:t", "feat:syn:clockf", "feat:clockf-last-frame-fractional-rate", "feat:syn:clock", "feat:syn:ms", "feat:syn:h", "feat:syn:m",
                                   "feat:frameRateMultiplier", "feat:set", "feat:text-in-seq", "feat:anonymous-span", "feat:zero-duration",
                                   "feat:chain>=2", "depth:4", "ns:default", "ns:prefixed", "presents-content", "known:r1-site",
                                   "feat:inverted", "feat:comment-or-pi-in-text")),
   "styling": Part("styling", check, strategy=cases(STYLING), n=(320, 32000), shrinker=simplifications,
-                  required_labels=("feat:chain>=2", "feat:chain>=3", "feat:later-ref-overrides", "feat:nested", "feat:nested-overrides-ref",
+                  required_labels=("feat:chain>=2", "feat:chain>=3", "feat:chain-ref-order", "feat:later-ref-overrides", "feat:nested", "feat:nested-overrides-ref",
                                    "feat:inline-overrides", "feat:missing-ref", "feat:initial", "feat:ruby", "feat:set",
                                    "presents-content")),
   "r1": Part("r1", check, strategy=cases(R1), n=(96, 4800), shrinker=simplifications, required_labels=("known:r1-site",)),
